@@ -191,7 +191,7 @@ def run(chk):
     # CLI level: every command on an invalid workflow fails with the graph's error and changes nothing
     import history_check as HC
     rule, assume = chk.rule, chk.assumptions
-    HC.run_prop(chk, "C04", ["invalid"], 64 if chk.tier == "quick" else 600, rule, assume, lambda r: True)
+    HC.run_prop(chk, "C04", ["invalid", "C05", "invalid", "C16"], 96 if chk.tier == "quick" else 900, rule, assume, lambda r: True)
     for v in ("ok", "multi", "unresolved", "cycle"):
         if chk.counters.get("verdict:" + v, 0) < 20:
             raise common.Broken("degenerate generator: verdict %s hardly reached" % v)
